@@ -167,7 +167,12 @@ def gridfile_oracle(case) -> core.CaseResult:
     G["Cs_w"] = s_stretch(N, case["theta_s"], case["theta_b"], "w", case["vs"])
     res.cls(case["via"])
     with e2e.workdir() as d:
-        roms.write_roms(d / "g.nc", G, [], np.zeros((0, N, 6, 6)), np.zeros((0, N, 5, 7)))
+        Gfile = G
+        if case["via"] == "vinfo":
+            # the file records another transform and critical depth than the explicit Vinfo asks for
+            vt_f = 3 - case["vt"]
+            Gfile = dict(G, Vtransform=vt_f, hc=0.5 * float(h.min()) if vt_f == 1 else 7.0)
+        roms.write_roms(d / "g.nc", Gfile, [], np.zeros((0, N, 6, 6)), np.zeros((0, N, 5, 7)))
         if case["via"] == "file":
             g = Grid(filename=str(d / "g.nc"))
         else:
@@ -190,9 +195,95 @@ def gridfile_oracle(case) -> core.CaseResult:
     return res
 
 
+
+@st.composite
+def lookup_cases(draw):
+    return dict(N=draw(st.sampled_from([1, 2, 3, 5, 9])), vt=draw(st.sampled_from([1, 2])), seed=draw(st.integers(0, 10**6)),
+                hmin=draw(st.floats(2.0, 200.0)), rounds=draw(st.integers(1, 4)), sub=draw(st.booleans()),
+                regrow=draw(st.booleans()))
+
+
+def lookup_oracle(case) -> core.CaseResult:
+    """The lookup the forcing keeps for its particles (Forcing.K, Forcing.A) over a history of forcing updates in
+    which the particles change depth between updates (sinking below the lowest level, rising above the top one)
+    while their number stays the same or changes."""
+    from ladim.model import init_module
+
+    from vlib import e2e, roms, scen
+
+    e2e.quiet()
+    res = core.CaseResult()
+    N, jm, im = case["N"], 8, 9
+    rng = np.random.default_rng(case["seed"])
+    h = rng.uniform(case["hmin"], case["hmin"] * 10, (jm, im))
+    G = roms.make_grid(jm, im, N=N, h=h, Vtransform=case["vt"], hc=0.5 * float(h.min()), levels="random",
+                       seed=case["seed"])
+    zr = roms.grid_zr(G)
+    sub = [2, im - 1, 1, jm - 2] if case["sub"] else None
+    i0, i1, j0, j1 = sub or [1, im - 1, 1, jm - 1]
+    n = 10
+    DTL = 600
+    with e2e.workdir() as d:
+        times = [scen.T0, scen.T0 + scen.S(20 * DTL)]
+        roms.write_roms(d / "f.nc", G, times, np.zeros((2, N, jm, im - 1)), np.zeros((2, N, jm - 1, im)))
+        modules = {}
+        try:
+            modules["state"] = init_module("state", {}, modules)
+            modules["time"] = init_module("time", {"start": e2e.iso(times[0]), "stop": e2e.iso(times[1]), "dt": DTL}, modules)
+            gconf = {"filename": str(d / "f.nc")}
+            if sub:
+                gconf["subgrid"] = sub
+            modules["grid"] = init_module("grid", gconf, modules)
+            modules["forcing"] = init_module("forcing", {"filename": str(d / "f.nc")}, modules)
+            state, timer, force = modules["state"], modules["time"], modules["forcing"]
+            X = rng.uniform(i0 + 0.6, i1 - 1.6, n)
+            Y = rng.uniform(j0 + 0.6, j1 - 1.6, n)
+            J, I = np.floor(Y + 0.5).astype(int), np.floor(X + 0.5).astype(int)
+            hp = h[J, I]
+            state.append(X=X, Y=Y, Z=0.5 * hp)
+            inside = False
+            for r_ in range(case["rounds"] + 1):
+                if r_:
+                    kind = rng.integers(0, 4, n)
+                    Z = np.where(kind == 0, rng.uniform(0, 1, n) * hp, np.where(kind == 1, hp * rng.uniform(0.97, 2.0, n),
+                                 np.where(kind == 2, -0.2 * hp, rng.uniform(0, 0.03, n) * hp)))
+                    state["Z"] = Z
+                    if case["regrow"] and r_ == 2:
+                        state.append(X=X[:2], Y=Y[:2], Z=hp[:2] * 1.5)   # particle count changes once
+                timer.update()
+                force.update()
+                Zs, Xs, Ys = np.array(state.Z), np.array(state.X), np.array(state.Y)
+                K, A = np.array(force.K), np.array(force.A)
+                for p_ in range(len(Zs)):
+                    col = zr[:, int(np.floor(Ys[p_] + 0.5)), int(np.floor(Xs[p_] + 0.5))]
+                    tgt = min(max(-Zs[p_], col[0]), col[-1])
+                    k, a = int(K[p_]), float(A[p_])
+                    okk = (1 <= k <= N - 1) if N >= 2 else k == 0
+                    if not res.check(okk and 0 <= a <= 1, "forcing_lookup_range",
+                                     f"update {r_}: particle {p_} at depth {Zs[p_]}: K={k}, A={a} (N={N})"):
+                        return res
+                    val = a * col[k - 1] + (1 - a) * col[k]
+                    if not res.check(abs(val - tgt) <= 1e-9 * max(1.0, abs(col[0])), "forcing_lookup_identity",
+                                     f"update {r_}: particle {p_} at depth {Zs[p_]}: A*z[K-1]+(1-A)*z[K] = {val}, clamped "
+                                     f"depth {tgt} (K={k}, A={a}, column {col})"):
+                        return res
+                    inside = inside or (col[0] < -Zs[p_] < col[-1])
+            force.close()
+        except BaseException as e:  # noqa: BLE001
+            import traceback
+
+            res.fail("forcing_lookup_raises", f"{e!r}\n{traceback.format_exc()[-500:]}")
+            return res
+    res.nontrivial = N >= 2 and inside and case["rounds"] >= 2
+    res.cls("depth_history")
+    return res
+
+
 def shard(part, n, seed, known):
     stt = core.Stats()
-    if part == "vert":
+    if part == "lookup":
+        core.drive("lookup", lookup_cases(), lookup_oracle, n, seed, stt, known)
+    elif part == "vert":
         core.drive("vert", vert_cases(), oracle, n, seed, stt, known)
     else:
         core.drive("gridfile", gridfile_cases(), gridfile_oracle, n, seed, stt, known)
@@ -201,19 +292,24 @@ def shard(part, n, seed, known):
 
 def run(ctx):
     jobs = [("vert", k, core.subseed(ctx.seed, "v", i), ctx.known_sigs)
-            for i, k in enumerate(core.split(ctx.n(15000, 300000), 12))]
+            for i, k in enumerate(core.split(ctx.n(15000, 300000), 10))]
     jobs += [("gridfile", k, core.subseed(ctx.seed, "g", i), ctx.known_sigs)
-             for i, k in enumerate(core.split(ctx.n(800, 8000), 4))]
+             for i, k in enumerate(core.split(ctx.n(800, 8000), 3))]
+    jobs += [("lookup", k, core.subseed(ctx.seed, "l", i), ctx.known_sigs)
+             for i, k in enumerate(core.split(ctx.n(900, 12000), 3))]
     stats = core.Stats()
     for s in core.pmap(shard, jobs):
         stats.merge(s)
     return stats, dict(
         rule=("generated (N, Vstretching, theta_s, theta_b, Vtransform, hc, bathymetry, depths incl. exactly on levels "
-              "and above/below the range); non-trivial = N >= 2 and at least one depth strictly inside the level range"),
+              "and above/below the range); non-trivial = N >= 2 and at least one depth strictly inside the level range; "
+              "gridfile: the same predicates and the ROMS depth formula on Grid.z_r / z_w from a file or from an explicit "
+              "Vinfo that differs from the file; lookup: the index pair and weight the forcing keeps for its particles "
+              "over a history of forcing updates between which the particles change depth"),
         assumptions=["theta_s, theta_b >= 1e-3 (closed forms lose significance near 0, see DESIGN C12-S)",
                      "tolerances 1e-12 on stretching end points, 1e-9*h on depths"],
     )
 
 
 def replay(part, case):
-    return (oracle if part == "vert" else gridfile_oracle)(case)
+    return {"vert": oracle, "gridfile": gridfile_oracle, "lookup": lookup_oracle}[part](case)
